@@ -190,7 +190,9 @@ pub struct NetProgram {
     #[serde(default)]
     pub share_channels: bool,
     /// extra top-level nodes built from des's own module blocks, each holding a token in its task / state:
-    /// 1 = AsyncFn::new, 2 = AsyncFn::failable, 3 = AsyncFn::io + require_join, 4 = HandlerFn
+    /// 1 = AsyncFn::new, 2 = AsyncFn::failable, 3 = AsyncFn::io + require_join, 4 = HandlerFn,
+    /// 5 = AsyncFn::new whose handler hands every message to a freshly spawned worker task, awaits it and logs the
+    /// completion (gate "in", connected to flat gate 0 of module 0)
     #[serde(default)]
     pub blocks: Vec<u8>,
 }
@@ -239,6 +241,8 @@ pub struct RunCtx {
     pub foreign: bool,
     /// shutdown requests made by processing elements (bounded per run)
     pub pe_shutdowns: u32,
+    /// completions logged by des module blocks: (simulated time, block index, message uid)
+    pub block_log: Vec<(u64, u8, u32)>,
 }
 
 thread_local! {
@@ -797,6 +801,7 @@ pub struct NetResult {
     pub started: bool,
     /// user code of an earlier simulation of this process ran during this one
     pub foreign: bool,
+    pub block_log: Vec<(u64, u8, u32)>,
 }
 
 pub fn sanitize_order(prog: &NetProgram) -> Vec<usize> {
@@ -937,7 +942,7 @@ pub fn run_net(prog: &NetProgram, opts: &RunOpts) -> NetResult {
     let nmod = prog.modules.len();
     let flat: Vec<Vec<(String, usize, usize)>> = prog.modules.iter().map(flat_gates).collect();
     CTX.with(|c| {
-        *c.borrow_mut() = Some(RunCtx { trace: Vec::new(), ids: BTreeMap::new(), building: 0, prog: prog.clone(), flat_gates: flat.clone(), ledger: crate::bodies::Ledger::default(), foreign: false, pe_shutdowns: 0 });
+        *c.borrow_mut() = Some(RunCtx { trace: Vec::new(), ids: BTreeMap::new(), building: 0, prog: prog.clone(), flat_gates: flat.clone(), ledger: crate::bodies::Ledger::default(), foreign: false, pe_shutdowns: 0, block_log: Vec::new() });
     });
     RUN_ID.with(|r| *r.borrow_mut() += 1);
     PE_SENDS.with(|p| *p.borrow_mut() = 0);
@@ -1074,6 +1079,34 @@ pub fn run_net(prog: &NetProgram, opts: &RunOpts) -> NetResult {
                     }));
                 }
                 _ => {}
+            }
+        }
+        // block kind 5 lives in its own loop: it owns no ledger token
+        for (bi, kind) in prog.blocks.iter().enumerate().take(8) {
+            if *kind != 5 {
+                continue;
+            }
+            use des::net::blocks::AsyncFn;
+            let name = format!("blk{bi}");
+            let run_id = current_run();
+            let b = bi as u8;
+            sim.node(name.as_str(), AsyncFn::new(move |mut rx: tokio::sync::mpsc::Receiver<Message>| async move {
+                while let Some(m) = rx.recv().await {
+                    let uid = src_to_uid(m.header().src);
+                    // the work is done by a task of its own; the handler continues when that task has finished
+                    let worker = tokio::spawn(async move { uid.wrapping_mul(3) });
+                    let r = worker.await.unwrap_or(0);
+                    if r == uid.wrapping_mul(3) && !is_foreign(run_id) {
+                        let now = SimTime::now().as_nanos() as u64;
+                        with_ctx(|c| c.block_log.push((now, b, uid)));
+                    }
+                }
+            }));
+            let gin = sim.gate(name.as_str(), "in");
+            if let Some(g0) = flat.first().and_then(|f| f.first()).and_then(|(gname, _, pos)| refs[0].as_ref().and_then(|r| r.gate(gname, *pos))) {
+                if g0.kind() == GateKind::Standalone {
+                    g0.connect(gin, None);
+                }
             }
         }
         // links
@@ -1270,6 +1303,7 @@ pub fn run_net(prog: &NetProgram, opts: &RunOpts) -> NetResult {
     let ctx = CTX.with(|c| c.borrow_mut().take());
     if let Some(c) = ctx {
         res.foreign = c.foreign;
+        res.block_log = c.block_log;
         res.trace = c.trace;
         res.ledger = c.ledger.report();
     }
